@@ -108,6 +108,9 @@ def check(tree, rep, tier='quick', seed=0):
                         rep.ob('R8.3', f'{y}/{fr.name}.{line}/{role}', used <= printed,
                                f'{y} {fr.name}.{line} uses {sorted(used - printed)} but the template box prints only {sorted(printed)} ("{x.speak[:90]}")', r.where,
                                sample={'line': f'{fr.name}.{line}', 'used': sorted(used), 'printed': sorted(printed)})
+    from ..core import get_core
+    from .. import corerules as R
+    R.k28_threshold_lookup_pure(get_core(tree), rep)
     rep.floor('(year, amount, site, status) triples compared', n, 450)
     rep.floor('amounts printed per filing status on a template and paired with the definition', n_tab, 60)
     rep.floor('amount ids covered', len(ids), 45)
